@@ -78,7 +78,7 @@ fn kind_of_choice<'a>(k: u8, variant: u8, seq3: &'a [J; 3]) -> (ErrorKind<'a, J>
         0 => {
             let actual: J = match variant { 0 => json!("x y"), 1 => json!(31), 2 => json!([1, "z"]), 3 => json!({"q": null}), 4 => json!(-4), 5 => json!(true), 6 => json!(2.5), 7 => J::Null,
                 // strings that JSON text must escape: quotes / backslash, control characters, DEL, combining / zero-width / astral characters
-                8 => json!("q\"b\\s"), 9 => json!("\u{0}\u{7}\u{8}\u{c}\u{1f}"), 10 => json!("a\u{7f}e\u{301}\u{200b}\u{1f980}"), _ => json!("l\n\r\t") };
+                12 => json!(u64::MAX), 13 => json!(9223372036854775808u64), 14 => json!(i64::MIN), 15 => json!(false), 8 => json!("q\"b\\s"), 9 => json!("\u{0}\u{7}\u{8}\u{c}\u{1f}"), 10 => json!("a\u{7f}e\u{301}\u{200b}\u{1f980}"), _ => json!("l\n\r\t") };
             let text = if actual.is_null() { "null".to_string() } else { format!("`{}`", serde_json::to_string(&actual).unwrap()) };
             (ErrorKind::IncorrectValueKind { actual: actual.into_value(), accepted: &KINDS }, vec![text, value_kinds_description_json(&KINDS)], vec![])
         }
@@ -107,7 +107,7 @@ pub fn msg_paths() {
     let mut steps = Vec::new();
     for _ in 0..depth { steps.push(POOL[nd::below(9) as usize].clone()); }
     let k = nd::below(6);
-    let variant = if k == 0 { nd::below(12) } else if k == 2 || k == 3 { nd::below(10) } else { 0 };
+    let variant = if k == 0 { nd::below(16) } else if k == 2 || k == 3 { nd::below(10) } else { 0 };
     let seq3 = [json!(1), json!("w"), J::Null];
     let (rj, rq) = (ref_json(&steps), ref_qp(&steps));
     let root_json = msg_of(JsonError::error::<J>(None, kind_of_choice(k, variant, &seq3).0, ValuePointerRef::Origin)).0;
@@ -134,6 +134,14 @@ pub fn msg_paths() {
             oblige!(listed_alternatives(&mj).as_ref() == Some(&want) && listed_alternatives(&mq).as_ref() == Some(&want), "C14:message_lists_exactly_the_accepted_alternatives");
         }
         // query parameters describe the value in their own words for IncorrectValueKind (kind 0): only kinds 1.. are compared
+        if k == 0 {
+            // query parameters: a scalar is quoted as written (numbers in decimal, booleans, the raw string); containers are only named
+            if let ErrorKind::IncorrectValueKind { actual, .. } = kind_of_choice(k, variant, &seq3).0 {
+                let raw: Option<String> = match actual { deserr::Value::Boolean(b) => Some(b.to_string()), deserr::Value::Integer(x) => Some(x.to_string()), deserr::Value::NegativeInteger(x) => Some(x.to_string()),
+                                                         deserr::Value::Float(x) => Some(x.to_string()), deserr::Value::String(x) => Some(x), _ => None };
+                if let Some(raw) = raw { oblige!(mq.contains(&format!("`{raw}`")), "C14:query_param_message_quotes_the_received_scalar_as_written"); }
+            }
+        }
         if k != 0 {
             oblige!(must_q.iter().all(|p| mq.contains(p.as_str())) && not_q.iter().all(|p| !mq.contains(p.as_str())), "C14:query_param_message_quotes_the_pieces_of_its_kind");
         }
